@@ -5,7 +5,7 @@ use crate::index::catalog::IndexCatalog;
 use crate::index::hnsw::HnswIndex;
 use crate::index::hnsw::params::HnswParams;
 use crate::index::hnsw::storage::{PersistentGraphStorage, PersistentVectorStorage};
-use crate::index::ordered_key::encode_ordered_value;
+use crate::index::ordered_key::encode_index_key;
 use crate::label_interner::{LabelInterner, LabelSnapshot};
 use crate::memtable::MemTable;
 use crate::pager::{PageId, Pager};
@@ -1065,9 +1065,8 @@ impl<'a> WriteTxn<'a> {
                             if let Some(re) = catalog.entries.get_mut(&name) {
                                 let mut tree = crate::index::btree::BTree::load(re.root);
 
-                                let mut key = Vec::new();
-                                key.extend_from_slice(&re.id.to_be_bytes());
-                                key.extend_from_slice(&encode_ordered_value(&val));
+                                // [index_id][value][node_id]: equal values are distinct B-tree keys
+                                let key = encode_index_key(re.id, &val, node_id as u64);
 
                                 let _ = tree.insert(&mut pager, &key, node_id as u64);
                                 re.root = tree.root();
@@ -1079,17 +1078,12 @@ impl<'a> WriteTxn<'a> {
 
                                 // 1. Remove old value
                                 if let Some(old_val) = old_val_opt {
-                                    let mut old_key = Vec::new();
-                                    old_key.extend_from_slice(&re.id.to_be_bytes());
-                                    old_key.extend_from_slice(&encode_ordered_value(&old_val));
-
+                                    let old_key = encode_index_key(re.id, &old_val, node_id as u64);
                                     let _ = tree.delete(&mut pager, &old_key, node_id as u64);
                                 }
 
                                 // 2. Insert new value
-                                let mut new_key = Vec::new();
-                                new_key.extend_from_slice(&re.id.to_be_bytes());
-                                new_key.extend_from_slice(&encode_ordered_value(&new_val));
+                                let new_key = encode_index_key(re.id, &new_val, node_id as u64);
 
                                 let _ = tree.insert(&mut pager, &new_key, node_id as u64);
                                 re.root = tree.root();
@@ -1100,9 +1094,7 @@ impl<'a> WriteTxn<'a> {
                                 let mut tree = crate::index::btree::BTree::load(re.root);
 
                                 if let Some(old_val) = old_val_opt {
-                                    let mut old_key = Vec::new();
-                                    old_key.extend_from_slice(&re.id.to_be_bytes());
-                                    old_key.extend_from_slice(&encode_ordered_value(&old_val));
+                                    let old_key = encode_index_key(re.id, &old_val, node_id as u64);
                                     let _ = tree.delete(&mut pager, &old_key, node_id as u64);
                                     re.root = tree.root();
                                 }
